@@ -48,6 +48,10 @@ def operand(s, form, kind, shape):
         return True if kind == "B" else 2
     if form == "lit0":
         return False if kind == "B" else -1
+    if form == "litz":        # neutral / absorbing elements: shortcuts for them must keep operand order and sign
+        return False if kind == "B" else 0
+    if form == "lit1":
+        return True if kind == "B" else 1
     raise ValueError(form)
 
 
@@ -133,9 +137,10 @@ def part_elementwise(ctx):
         n = size(shape)
         for opname, (ok, rk, pf, zf) in BIN.items():
             forms = [("arr", "arr"), ("arr", "var"), ("var", "arr"), ("arr", "lit"), ("lit", "arr"), ("arrx", "expr"),
-                     ("expr", "arrx"), ("arr", "lit0"), ("arrx", "arr")]
+                     ("expr", "arrx"), ("arr", "lit0"), ("arrx", "arr"), ("lit0", "arr"), ("arr", "litz"), ("litz", "arr"), ("arr", "lit1"),
+                     ("lit1", "arrx"), ("litz", "arrx")]
             for lf, rf in forms:
-                if opname == "then" and lf in ("lit", "lit0"):
+                if opname == "then" and lf in ("lit", "lit0", "litz", "lit1"):
                     continue      # True.then does not exist; the function form is 'cthen'
                 s = Solver()
                 a = operand(s, lf, ok, shape)
